@@ -10,6 +10,7 @@ CONSTANTS
   MaxHist = 99
   Shapes = {"str"}
   FixSets = {{}}
+  Causes = {"peer"}
   Emit = FALSE
   Only = "all"
 INIT Init
